@@ -69,6 +69,7 @@ Vals == 1..MaxVal
 (* State *)
 
 InitSt == [ conn  |-> {},                          \* peers with a connection (SetupRemoteDevice)
+            addr  |-> {},                          \* peers whose device address is known (discovery reply seen)
             known |-> [p \in Peers |-> {}],         \* remote entities known per peer
             subs  |-> {},                           \* [p, c, s]  server-side subscription registry
             binds |-> {},                           \* [p, c, s]  server-side binding registry
@@ -76,12 +77,12 @@ InitSt == [ conn  |-> {},                          \* peers with a connection (S
             cbind |-> {},                           \* [k, p, r]  client-side binding bookkeeping
             data  |-> [c \in Cells |-> 0] ]         \* abstract data version per cell (0 = initial)
 
-Discovered(st, p) == p \in st.conn /\ st.known[p] # {"0"} /\ st.known[p] # {}
+Discovered(st, p) == p \in st.conn /\ p \in st.addr
 \* the device address of a peer is known after its first discovery reply
 RKnown(st, p, c)  == c \in RemoteNames /\ p \in st.conn /\ RF[c].ent \in st.known[p]
 
 TypeOK(st) ==
-    /\ st.conn \subseteq Peers
+    /\ st.conn \subseteq Peers /\ st.addr \subseteq st.conn
     /\ \A p \in Peers : st.known[p] \subseteq REnts
     /\ \A e \in st.subs \cup st.binds : e.p \in Peers /\ e.c \in RemoteNames /\ e.s \in LocalNames
     /\ \A e \in st.csub \cup st.cbind : e.k \in LocalNames /\ e.p \in Peers /\ e.r \in RemoteNames
@@ -125,7 +126,7 @@ DiscoverOut(st, a) ==
         ann == a.ents \cup {"0"}
         new == ann \ st.known[p]
     IN  IF p \notin st.conn THEN { Outcome(st, NoOut, {}, "ok", Ideal) }
-        ELSE { Outcome([st EXCEPT !.known[p] = @ \cup ann,
+        ELSE { Outcome([st EXCEPT !.known[p] = @ \cup ann, !.addr = @ \cup {p},
                                    !.csub = @ \cup {[k |-> "NM", p |-> p, r |-> "nm"]}],
                        OutTo(p, Ack(a, "NM", "nm")),
                        {Ev("dev", "add", p, "", "", "")} \cup {Ev("ent", "add", p, e, "", "") : e \in new},
@@ -140,7 +141,7 @@ DisconnectOut(st, a) ==
     LET p == a.p IN
     IF p \notin st.conn
     THEN { Outcome(st, NoOut, {Ev("dev", "remove", p, "", "", "")}, "ok", Ideal) }
-    ELSE { Outcome([st EXCEPT !.conn = @ \ {p}, !.known[p] = {},
+    ELSE { Outcome([st EXCEPT !.conn = @ \ {p}, !.addr = @ \ {p}, !.known[p] = {},
                                !.subs = @ \ OfPeer(st.subs, p), !.binds = @ \ OfPeer(st.binds, p),
                                !.csub = @ \ OfPeer(st.csub, p), !.cbind = @ \ OfPeer(st.cbind, p)],
                    NoOut,
